@@ -41,6 +41,11 @@ type params struct {
 	Items   []item `json:"items"`
 	NoCRC   bool   `json:"no_crc"`
 	PreSeed bool   `json:"preseed_empty_blob"` // an empty blob sits under the key of the first item's first leaf
+	// family "leaf-write-fault": Items[0] is stored Trials times into fresh stores whose write of leaf FaultLeaf
+	// (0-based; -1: the last leaf) fails; the other writes take 0..Jitter microseconds
+	Trials    int `json:"trials,omitempty"`
+	FaultLeaf int `json:"fault_leaf,omitempty"`
+	Jitter    int `json:"jitter_us,omitempty"`
 }
 
 const MiB = 1 << 20
@@ -104,6 +109,24 @@ func gen02(seed int64, tier string) []drv.Case {
 			{Label: fmt.Sprintf("b%d", i), Len: l, Src: ss[r.Intn(len(ss))], Flush: flush()},
 			{Label: fmt.Sprintf("b%d", i), Len: l, Src: ss[r.Intn(len(ss))], Flush: flush(), Derive: "same:0"}}})
 	}
+	// one leaf write fails while the others are in flight: the Put must not hand out a key for a shorter content
+	nf := 24
+	if tier == "thorough" {
+		nf = 400
+	}
+	for i := 0; i < nf; i++ {
+		leaf := []int{64, 100, 1024, 4096}[r.Intn(4)]
+		nl := 2 + r.Intn(11)
+		l := nl * leaf
+		if r.Intn(3) == 0 {
+			l += 1 + r.Intn(leaf-1)
+			nl++
+		}
+		fl := []int{-1, -1, nl - 2, 0, r.Intn(nl)}[r.Intn(5)]
+		ss := srcs(leaf)
+		add("leaf-write-fault", params{Leaf: leaf, Trials: 40, FaultLeaf: fl, Jitter: []int{0, 0, 20, 200}[r.Intn(4)],
+			Items: []item{{Label: fmt.Sprintf("f%d", i), Len: l, Src: ss[r.Intn(len(ss))], Flush: []int{2, 3, 4, 8, 16}[r.Intn(5)]}}})
+	}
 	// histories into one shared store
 	nh := 60
 	if tier == "thorough" {
@@ -149,6 +172,10 @@ func run02(c drv.Case, res *drv.Result) {
 	var p params
 	drv.Params(c, &p)
 	cafsh.InstallWriteProgressMonitor()
+	if p.Trials > 0 {
+		runFault02(p, res)
+		return
+	}
 	w := memstore.NewWorld(memstore.Config{NoCRC: p.NoCRC})
 	blob := w.Store("blob")
 	view := blob.For(memstore.NewActor("writer"))
@@ -298,6 +325,81 @@ func run02(c drv.Case, res *drv.Result) {
 	res.Canon = fmt.Sprintf("leaf=%d %v crc=%v pre=%v", p.Leaf, ks, !p.NoCRC, p.PreSeed)
 	res.Nontrivial = true
 	res.Sample = map[string]interface{}{"leaf": p.Leaf, "items": p.Items, "blobs_in_store": len(blob.RawKeys())}
+}
+
+// runFault02: the write of one leaf blob fails while the other leaves are being flushed in parallel. Whatever the
+// interleaving of the flushers, Put either fails or returns the key of the WHOLE content with every blob in place
+// (never the key of the leaves that happened to be written).
+func runFault02(p params, res *drv.Result) {
+	it := p.Items[0]
+	content := gen.Bytes(p.Seed, it.Label, it.Len)
+	lc := cafsh.LenClass(len(content), p.Leaf)
+	sw := memstore.NewWorld(memstore.Config{})
+	sfs, err := cafsh.NewFs(sw.Store("blob").For(nil), uint32(p.Leaf))
+	if err != nil {
+		panic(err)
+	}
+	ref, err := cafsh.Put(sfs, content, p.Leaf, cafsh.Source{Kind: "single"})
+	if err != nil {
+		res.Violate("put-error", lc, "fault-free Put of %d bytes at leaf %d failed: %v", len(content), p.Leaf, err)
+		return
+	}
+	nl := len(ref.Keys) / cafs.KeySize
+	fl := p.FaultLeaf
+	if fl < 0 || fl >= nl {
+		fl = nl - 1
+	}
+	victim := hex.EncodeToString(ref.Keys[fl*cafs.KeySize : (fl+1)*cafs.KeySize])
+	jr := gen.Rand(p.Seed, "jitter")
+	var jmu sync.Mutex
+	for trial := 0; trial < p.Trials; trial++ {
+		w := memstore.NewWorld(memstore.Config{NoCRC: p.NoCRC})
+		blob := w.Store("blob")
+		a := memstore.NewActor("writer")
+		a.SetFault(func(c memstore.Call) error {
+			if c.Key == victim && (c.Op == "put" || c.Op == "putx") {
+				return fmt.Errorf("injected: write of leaf %d refused", fl)
+			}
+			return nil
+		})
+		if p.Jitter > 0 {
+			a.SetDelay(func() time.Duration {
+				jmu.Lock()
+				defer jmu.Unlock()
+				return time.Duration(jr.Intn(p.Jitter+1)) * time.Microsecond
+			})
+		}
+		fs, err := cafsh.NewFs(blob.For(a), uint32(p.Leaf), cafs.ConcurrentFlushes(it.Flush))
+		if err != nil {
+			panic(err)
+		}
+		pr, err := cafsh.Put(fs, content, p.Leaf, it.Src)
+		res.Stat("puts_with_a_failing_leaf_write", 1)
+		if a.FaultsInjected() == 0 {
+			res.Stat("trials_where_the_fault_never_fired", 1)
+		}
+		if err != nil {
+			res.Stat("puts_reporting_the_failure", 1)
+			continue
+		}
+		after := blob.Snapshot()
+		switch {
+		case pr.Key.String() != ref.Key.String():
+			res.Violate("key-of-partial-content", lc, "trial %d: the write of leaf %d of %d failed (flush concurrency %d), yet Put of %d bytes succeeded with key %s…, the content's key is %s… (%d leaf keys returned, %d expected)",
+				trial, fl, nl, it.Flush, len(content), pr.Key.String()[:16], ref.Key.String()[:16], len(pr.Keys)/cafs.KeySize, nl)
+			return
+		case after[victim] == nil && a.FaultsInjected() > 0:
+			res.Violate("put-succeeded-without-its-leaf", lc, "trial %d: the write of leaf %d of %d failed, yet Put succeeded and the leaf blob is not in the store", trial, fl, nl)
+			return
+		}
+		res.Stat("puts_succeeding_with_the_full_key", 1)
+	}
+	res.Seen("length_class", lc)
+	res.Seen("leaf_size", fmt.Sprint(p.Leaf))
+	res.Seen("flush_concurrency", fmt.Sprint(it.Flush))
+	res.Canon = fmt.Sprintf("fault leaf=%d len=%d fl=%d flush=%d src=%s jitter=%d", p.Leaf, it.Len, p.FaultLeaf, it.Flush, it.Src.Kind, p.Jitter)
+	res.Nontrivial = true
+	res.Sample = map[string]interface{}{"leaf": p.Leaf, "len": it.Len, "failing_leaf": fl, "leaves": nl, "trials": p.Trials, "flush": it.Flush}
 }
 
 func scan(s, format string, a ...interface{}) bool {
